@@ -7,6 +7,6 @@ for f in Props/C*.v; do mods="$mods LasioV.$(basename $f .v)"; done
 {
   echo "coqchk -o over: $mods"
   echo "coq version: $(coqc --version | head -1)"
-  timeout 7200 coqchk -silent -o -R PyLib LasioV -R Gen LasioV -R Model LasioV -R Proofs LasioV -R Props LasioV $mods 2>&1 | tail -30
+  timeout 7200 coqchk -silent -o -R PyLib LasioV -R Gen LasioV -R Model LasioV -R Proofs LasioV -R Props LasioV -R Corr LasioV $mods 2>&1 | tail -30
 } > ../coqchk_report.txt
 tail -20 ../coqchk_report.txt
